@@ -173,9 +173,30 @@ type recStream struct {
 	l     *node
 	name  string
 	recvs int
+	// a slow link: Sends queue up behind sendMu; an armed gate parks the next Send before it serialises
+	sendMu  sync.Mutex
+	armed   bool
+	parked  chan struct{}
+	release chan struct{}
+}
+
+func (x *recStream) arm() {
+	x.l.mu.Lock()
+	x.armed, x.parked, x.release = true, make(chan struct{}), make(chan struct{})
+	x.l.mu.Unlock()
 }
 
 func (x *recStream) Send(m *pdpb.SyncRegionResponse) error {
+	x.l.mu.Lock()
+	armed, p, r := x.armed, x.parked, x.release
+	x.armed = false
+	x.l.mu.Unlock()
+	if armed {
+		close(p)
+		<-r
+	}
+	x.sendMu.Lock()
+	defer x.sendMu.Unlock()
 	// gRPC serialises inside SendMsg; record what is on the wire at this moment
 	b, err := proto.Marshal(m)
 	if err != nil {
@@ -406,6 +427,7 @@ type world struct {
 	hkv  *failKV
 	hb   *syncer.VerifHistoryBuffer
 	hcap int
+	held map[int][]*core.RegionInfo // answers of RecordsFrom kept by the caller
 }
 
 func (w *world) newDir() string {
@@ -428,7 +450,7 @@ func (w *world) reset() {
 		os.RemoveAll(w.leader.dir)
 	}
 	w.leader, w.followers = nil, nil
-	w.hkv, w.hb = nil, nil
+	w.hkv, w.hb, w.held = nil, nil, nil
 	w.seq++
 }
 
@@ -530,6 +552,7 @@ func (w *world) exec(op string) string {
 			w.hcap, _ = strconv.Atoi(f[2])
 			w.hkv = &failKV{Base: kv.NewMemoryKV()}
 			w.hb = syncer.NewVerifHistoryBuffer(w.hcap, w.hkv)
+			w.held = map[int][]*core.RegionInfo{}
 			return w.hbObs()
 		case w.hb == nil:
 			return bad
@@ -546,6 +569,20 @@ func (w *world) exec(op string) string {
 			return w.hbObs()
 		case f[1] == "from" && len(f) == 3:
 			return ids(w.hb.RecordsFrom(u(f[2])))
+		case f[1] == "hold" && len(f) == 4: // keep the answer of RecordsFrom in slot k
+			k, _ := strconv.Atoi(f[2])
+			if k < 0 || k > 3 {
+				return bad
+			}
+			w.held[k] = w.hb.RecordsFrom(u(f[3]))
+			return ids(w.held[k])
+		case f[1] == "recheck" && len(f) == 3: // look at the kept answer again
+			k, _ := strconv.Atoi(f[2])
+			h, ok := w.held[k]
+			if !ok {
+				return bad
+			}
+			return ids(h)
 		case f[1] == "get" && len(f) == 3:
 			r := w.hb.VerifGet(u(f[2]))
 			if r == nil {
@@ -626,6 +663,83 @@ func (w *world) exec(op string) string {
 			return fmt.Sprintf("ok accepted=%d next=%d", accepted, h.GetNextIndex())
 		}
 		return fmt.Sprintf("ok next=%d", h.GetNextIndex())
+	case f[0] == "burst" && len(f) >= 4:
+		// changes arriving while follower i's stream is busy: its next Send is parked before it serialises, the
+		// first change is notified, then (while that Send is parked) the others; the gate opens 50 ms later
+		fo, l := w.follower(f[1]), w.leader
+		if fo == nil || l == nil || !fo.connected || len(f) > 7 {
+			return bad
+		}
+		for _, spec := range f[2:] {
+			if parseRegion(spec).GetLeader() == nil {
+				return bad
+			}
+		}
+		l.mu.Lock()
+		x := l.cur[fo.name]
+		l.mu.Unlock()
+		if x == nil {
+			return bad
+		}
+		h, fh := l.sy.VerifHistory(), fo.sy.VerifHistory()
+		before := h.GetNextIndex()
+		l.takeSent(fo.name)
+		var acc strings.Builder
+		var rest []*core.RegionInfo
+		first := true
+		for _, spec := range f[2:] {
+			r := parseRegion(spec)
+			res := l.bc.CheckAndPutRegion(r)
+			if len(res) == 1 && res[0] == r {
+				acc.WriteByte('0')
+				continue
+			}
+			acc.WriteByte('1')
+			if first {
+				first = false
+				x.arm()
+				l.notifier <- r
+				select {
+				case <-x.parked:
+				case <-time.After(waitLimit):
+					return "timeout-park"
+				}
+			} else {
+				rest = append(rest, r)
+			}
+		}
+		n := uint64(strings.Count(acc.String(), "1"))
+		if n == 0 {
+			return fmt.Sprintf("ok acc=%s next=%d msgs=[] fnext=%d", acc.String(), before, fh.GetNextIndex())
+		}
+		go func() {
+			for _, r := range rest {
+				l.notifier <- r
+			}
+		}()
+		time.Sleep(50 * time.Millisecond)
+		close(x.release)
+		tail := ""
+		if !waitFor(waitLimit, func() bool { return h.GetNextIndex() == before+n }) {
+			return "timeout-record"
+		}
+		for i, o := range w.followers {
+			if !o.connected {
+				name := o.name
+				waitFor(waitLimit, func() bool { return !l.sy.VerifHasStream(name) })
+				continue
+			}
+			oh := o.sy.VerifHistory()
+			if !waitFor(5*time.Second, func() bool { return oh.GetNextIndex() == before+n }) {
+				tail = fmt.Sprintf(" timeout-follower-%d", i)
+			}
+		}
+		if tail == "" {
+			// every message must have left the leader before it is looked at
+			waitFor(5*time.Second, func() bool { ms, _ := l.peekSent(fo.name); return uint64(len(ms)) >= n })
+		}
+		ms := l.takeSent(fo.name)
+		return fmt.Sprintf("ok acc=%s next=%d msgs=%s fnext=%d%s", acc.String(), h.GetNextIndex(), fmtMsgs(ms), fh.GetNextIndex(), tail)
 	case f[0] == "follower" && len(f) == 2:
 		if len(w.followers) >= 4 {
 			return bad
